@@ -373,7 +373,8 @@ class Ref:
         out = []
         for x in items:
             frame = dict(x) if isinstance(x, dict) else {}
-            frame["item"] = x
+            if "item" not in frame:
+                frame["item"] = x      # `item` is the element, unless the element is a context that has an entry named item
             r = self.ev(pred, env.push(frame))
             if r is True:
                 out.append(x)
